@@ -113,7 +113,14 @@ def check_case(np, sparse, mor, engines_kinds, alias=None):
         for l in pl.lines_iterator():
             cs.append(reference_confidence(np, l))
         confs.append(cs)
-    mor.merge_layouts(layouts)
+    if alias == 'incremental':
+        # the first result is merged with the second engine, and what came out of that with the others (as when engines are added one
+        # by one): the first arg-max engine over ALL of them wins, exactly as in a single merge
+        mor.merge_layouts(layouts[:2])
+        mor.merge_layouts([layouts[0]] + layouts[2:])
+        alias = None
+    else:
+        mor.merge_layouts(layouts)
     bad = []
     nlines = len(before[0])
     for p in range(nlines):
@@ -191,6 +198,8 @@ def cases(thorough):
     for n in (1, 2):
         for ek in itertools.product(per_engine, repeat=n):
             cs.append((ek, 'mixed'))
+    for ek in itertools.product([(k,) for k in KINDS], repeat=3):
+        cs.append((ek, 'incremental'))
     for nl in (1, 2):
         for ks in itertools.product(KINDS, repeat=nl):
             cs.append(((ks,), 'same'))
